@@ -257,6 +257,14 @@ CLAIMED = {
         technique='contracts on the real methods (finite maps for statuses/labels, loop invariants), pyvc -> z3; closed-world and statement-order obligations by AST',
         design_ref='7/C30',
     ),
+    'C11': dict(
+        text='PoolScheduler._compute_fair_share verified on its real body for ALL inputs (any number of users, any non-negative running/ready cores, any free-core amount incl. zero and negative): loading loop, water-filling while loop and final loop under inductive invariants (users partitioned into pending / allocating / done; pending users at or above the level with nothing, allocating users span the level, done users have their whole demand below it; budget conservation free + |A|*mark - SUMR + TOTAL == free0 with ghost sums, nonlinear VCs by z3). '
+        'Postconditions: 0 <= allocation <= demand for every user; a user left short sits exactly at the common level or is above it with nothing; a user with its whole demand is at or below the level; nothing without free cores; total <= free + |A|/2; when a user is left short total >= free - |A|/2, and total == free exactly when the last level was not rounded.',
+        note=COMMON_NOTE + 'Assumed: the database iterator yields one row per user with non-negative integers; sortedcontainers.SortedSet (s[0] = member with least key; set operations; cardinality kept by the executor); float arithmetic as real arithmetic (int(x + 0.5) on the quotient free/n); ghost sums SUMR / TOTAL mirror the sums they stand for (two stated ghost assumptions, induction over set operations). The order of the returned dict is not covered. '
+        'Failing VCs of this contract come back unknown/timeout from z3; violations are then reported with a witness from the native search (real method, real sortedcontainers, exact rational water-filling reference). Thorough tier: 101 220 grid cases as a bounded cross-check.',
+        technique='inductive loop invariants with ghost sums on the real coroutine (finite sets as maps with cardinality, set iteration as an arbitrary enumeration), pyvc -> z3 (nonlinear integer/real arithmetic); native reference search as witness',
+        design_ref='7/C11',
+    ),
     'C12': dict(
         text='Modular contracts on the real request path. PoolConfig.convert_requests_to_resources: returns None or (cores, memory, storage_gib) with cores >= requested cores, memory >= requested memory, storage_gib*2^30 >= requested storage, cores <= worker_cores*1000 (fits one worker), cores = 250*2^k and least such, memory exactly the granted cores\' share of the worker type, storage >= 10 GiB or 0 and no more than needed; None only if the storage exceeds the cloud maximum or no packable core count that fits the worker covers the cpu and memory request. '
         'select_pool_from_worker_type / select_cheapest_price_pool (loop invariant: every pool skipped so far mismatched cloud/preemptible/label[/worker type] or could not satisfy; cheapest: the choice so far is such a grant): the selected pool equals the request in cloud, preemptible, label and worker type and its grant covers the request; None only if no matching configured pool can satisfy it. '
